@@ -58,17 +58,351 @@ class CoreCheck(Check):
         ctx.setdefault('cov_extra', {})['generated'] = len(raw)
         ctx['cov_extra']['discarded_by_model'] = dropped
         return keep
+    scenario = None          # a dedicated generator from gen_core, used for half of the cases
     def extra_cases(self, tier, seed, ctx):
-        return []
+        if not self.scenario: return []
+        n = (self.n_quick if tier == 'quick' else self.n_thorough) // 2
+        res = []
+        for i in range(n):
+            h, lines = self.scenario(case_rng(seed, self.pid + 'scn', i), ctx['params'])
+            res.append(('s%d' % i, h, lines))
+        return res
     def nontrivial(self, case, ctr):
         return ctr is not None and sum(1 for l in ctr if l.startswith('cb ')) >= 2
     def project(self, header, lines):
         return [re.sub(r'^r-\d+$', 'r-', l) for l in lines]
 
-class C01(CoreCheck):
+
+# ---------------------------------------------------------------- trace structure
+def categorize(lines):
+    """-> list of (category, line): r-lines get the name of the call they answer"""
+    res = []; stack = []
+    for l in lines:
+        if l.startswith('> '):
+            stack.append(l[2:]); continue
+        if re.match(r'^r-?\d+$', l):
+            name = stack.pop() if stack else '?'
+            res.append(('ret:' + name, l)); continue
+        if l.startswith('cb '):
+            t = l.split(); res.append(('cb:' + t[2], l)); stack.append('{'); continue
+        if l == '}':
+            while stack and stack[-1] != '{': stack.pop()
+            if stack: stack.pop()
+            res.append(('end', l)); continue
+        res.append((l.split()[0].rstrip('=') if l else '', l))
+    return res
+
+def evdescs(cbline):
+    """'cb m evt n h st=S d1 d2 ...' -> list of 7-tuples"""
+    return [tuple(x.split(':')) for x in cbline.split()[6:]]
+
+class Proj:
+    """property-level projection: which categories are kept, and how much of each line"""
+    def __init__(self, rets=(), exact=(), cb=None, keep=(), allrets=False):
+        self.rets, self.exact, self.cb, self.keep, self.allrets = set(rets), set(exact), cb, set(keep), allrets
+    def __call__(self, lines):
+        out = []
+        for cat, l in categorize(lines):
+            if cat.startswith('ret:'):
+                name = cat[4:]
+                if name in self.exact: out.append(name + ' ' + l)
+                elif name in self.rets or self.allrets: out.append(name + ' ' + re.sub(r'^r-\d+$', 'r-', l))
+            elif cat.startswith('cb:'):
+                if self.cb: 
+                    x = self.cb(cat[3:], l)
+                    if x is not None: out.append(x)
+            elif cat == 'end':
+                if self.cb: out.append('}')
+            elif cat in self.keep or cat in ('CRASH', 'FAULT', 'LEAK'):
+                out.append(l)
+        return out
+
+def cb_plain(kind, l):        # callback identity and module state, no event details
+    t = l.split(); return ' '.join(t[:3] + t[5:6])
+def cb_handler(kind, l):      # + which handler
+    t = l.split(); return ' '.join(t[:3] + t[4:6]) if kind == 'evt' else None
+def cb_full(kind, l):
+    t = l.split(); return ' '.join(t[:3] + t[4:]) if kind == 'evt' else None
+def cb_ps(kind, l):           # only the pub/sub events of handler invocations
+    if kind != 'evt': return None
+    t = l.split(); ev = [x for x in t[6:] if x.startswith('0:')]
+    return ' '.join(t[:2] + ev) if ev else None
+def cb_sys(kind, l):
+    if kind != 'evt': return None
+    t = l.split(); ev = [x for x in t[6:] if x.startswith('0:') and x.split(':')[5] == '1']
+    return ' '.join(t[:2] + ev) if ev else None
+def cb_stop(kind, l):
+    return cb_plain(kind, l) if kind == 'stop' else None
+
+LIFE = ('start', 'stop', 'pause', 'resume', 'dereg', 'reg', 'pill')
+
+class CoreProp(CoreCheck):
+    proj = None
+    def project(self, header, lines):
+        return self.proj(lines) if self.proj else super().project(header, lines)
+
+# ---------------------------------------------------------------- monitors (independent of the model)
+def mon_evt_only_running(case, ctr):
+    for l in ctr:
+        if l.startswith('cb ') and l.split()[2] == 'evt' and l.split()[5] != 'st=2':
+            return [('an event handler ran for a module that is not RUNNING: ' + l[:60], None)]
+    return []
+
+def mon_running_count(case, ctr):
+    for i, l in enumerate(ctr):
+        if l.startswith('val ') and i + 1 < len(ctr) and ctr[i + 1].startswith('val ') and (i == 0 or not ctr[i - 1].startswith('val ')):
+            if l != ctr[i + 1]:
+                return [('context reports %s running modules, %s modules are RUNNING' % (l[4:], ctr[i + 1][4:]), None)]
+    return []
+
+def sends_of(case):
+    """data id -> (kind, autofree) for every send in the script text"""
+    res = {}
+    for l in case[2]:
+        t = l.split()
+        if t and t[0] in ('tell',): res[int(t[3])] = ('tell', t[4] == '1')
+        elif t and t[0] == 'publish': res[int(t[3])] = ('publish', t[4] == '1')
+        elif t and t[0] == 'broadcast': res[int(t[2])] = ('broadcast', t[3] == '1')
+    return res
+
+def mon_messages(case, ctr):
+    """at most once per recipient (stash replays excepted), send order per recipient, autofree exactly once and only for autofree sends"""
+    res = []; sends = sends_of(case)
+    seen = {}; last = {}; stashed = {}; frames = []; freed = {}; sendidx = {}; nsend = 0
+    pending = None; parg = 0
+    for l in ctr:
+        if l.startswith('> '):
+            t = l.split(); pending = t[1]; parg = int(t[2]) if len(t) > 2 else 0; continue
+        if l.startswith('cb '):
+            t = l.split(); m = int(t[1])
+            evs = evdescs(l) if t[2] == 'evt' else []
+            frames.append((m, evs))
+            if t[2] == 'evt':
+                for e in evs:
+                    if e[0] == '0' and e[5] == '0' and e[3] != '0':
+                        d = int(e[3]); key = (m, d)
+                        if pending == 'unstash':
+                            if stashed.get(key, 0) <= 0: res.append(('module %d got payload %d again without having stashed it' % key, None))
+                            else: stashed[key] -= 1
+                        else:
+                            if key in seen: res.append(('module %d received payload %d twice' % key, None))
+                            seen[key] = True
+                            if d in sendidx:
+                                if last.get(m, -1) > sendidx[d]: res.append(('module %d received payload %d after a later one: send order not kept' % (m, d), None))
+                                last[m] = max(last.get(m, -1), sendidx[d])
+                            else: res.append(('module %d received payload %d that was never accepted for sending' % (m, d), None))
+                        if d in freed: res.append(('payload %d handed to module %d after it was freed' % (d, m), None))
+            pending = None; continue
+        if l == '}':
+            if frames: frames.pop()
+            pending = None; continue
+        if l.startswith('freedata '):
+            d = int(l.split()[1])
+            if d in freed: res.append(('payload %d freed twice' % d, None))
+            freed[d] = True
+            if d in sends and not sends[d][1]: res.append(('payload %d sent without autofree was freed by the library' % d, None))
+            continue
+        m2 = re.match(r'^r(-?\d+)$', l)
+        if m2:
+            if pending in ('tell', 'publish', 'broadcast') and m2.group(1) == '0' and parg and parg not in sendidx:
+                sendidx[parg] = nsend; nsend += 1
+            if pending == 'stash' and m2.group(1) == '0' and frames and parg:
+                sm, k = parg // 100 - 1, parg % 100 - 1
+                evs = frames[-1][1]
+                if 0 <= k < len(evs) and evs[k][0] == '0' and evs[k][3] != '0':
+                    key = (sm, int(evs[k][3])); stashed[key] = stashed.get(key, 0) + 1
+            pending = None
+    return res[:1]
+
+def mon_stash_counts(case, ctr):
+    """unstash returns exactly the number of events of its nested invocation"""
+    res = []; stack = []
+    i = 0
+    while i < len(ctr):
+        l = ctr[i]
+        if l == '> unstash':
+            # next line is either r<z> (refused / nothing) or a cb line (nested invocation) ... then } then r
+            j = i + 1
+            if j < len(ctr) and ctr[j].startswith('cb '):
+                n = len(ctr[j].split()) - 6
+                depth = 0; k = j
+                while k < len(ctr):
+                    if ctr[k].startswith('cb '): depth += 1
+                    elif ctr[k] == '}':
+                        depth -= 1
+                        if depth == 0: break
+                    k += 1
+                if k + 1 < len(ctr):
+                    m2 = re.match(r'^r(-?\d+)$', ctr[k + 1])
+                    if m2 and int(m2.group(1)) != n:
+                        res.append(('unstash returned %s but handed over %d events' % (m2.group(1), n), None))
+        i += 1
+    return res[:1]
+
+def mon_userdata(case, ctr):
+    """descriptor events carry the userdata given at registration, by the module that registered them"""
+    reg = {}
+    for l in case[2]:
+        t = l.split()
+        if t and t[0] == 'srcreg' and t[2] == 'fd': reg.setdefault((int(t[1]), int(t[3])), set()).add(t[7])
+    for l in ctr:
+        if l.startswith('cb ') and l.split()[2] == 'evt':
+            m = int(l.split()[1])
+            for e in evdescs(l):
+                if e[0] == '1':
+                    ups = reg.get((m, int(e[1])))
+                    if ups is None: return [('module %d got an event of descriptor %s it never registered' % (m, e[1]), None)]
+                    if e[6] not in ups: return [('descriptor event of module %d carries userdata %s, registered with %s' % (m, e[6], sorted(ups)), None)]
+    return []
+
+class C01(CoreProp):
     pid = 'C01'; props_file = 'Props_C01'; focus = {'life', 'reent'}
+    proj = Proj(exact=(), rets=LIFE, cb=cb_plain, keep=('state', 'val'))
     rule = ('corpus + random programs over 2..5 modules: lifecycle/messaging/source calls from the top level and re-entrantly from scripted '
             'eval/start/stop/event callbacks (per-invocation bodies and return values), dispatch and blocking-loop driving; '
             'non-trivial = distinct script whose run invokes >= 2 callbacks')
+    def monitors(self, case, ctr):
+        return mon_evt_only_running(case, ctr) + mon_running_count(case, ctr)
 
-REGISTRY = {c.pid: c() for c in (C01,)}
+class C02(CoreProp):
+    pid = 'C02'; props_file = 'Props_C02'; focus = {'ps'}
+    proj = Proj(rets=('tell', 'publish', 'broadcast', 'pill'), cb=cb_ps, keep=('freedata',))
+    rule = ('corpus + random programs biased to subscribe/tell/publish/broadcast (literal and regular-expression topics, auto-free '
+            'payloads, pause/stop/deregister between send and delivery) + pipe-overflow bursts; non-trivial = distinct script delivering >= 2 messages')
+    def monitors(self, case, ctr): return mon_messages(case, ctr)
+    def nontrivial(self, case, ctr):
+        return ctr is not None and sum(1 for l in ctr if l.startswith('cb ') and ' 0:' in l) >= 2
+    def extra_cases(self, tier, seed, ctx):
+        # bursts beyond the pipe capacity (8192 messages): the overflowing copies must be dropped cleanly
+        res = []
+        for i in range(3 if tier == 'quick' else 12):
+            P = ctx['params']; n = 8192 + 5 + i
+            lines = ['mod 0 %d %d 0 0 0 0 0 0 0 0' % (P.names[0], P.mslot[P.names[0]]), 'mod 1 %d %d 0 0 0 0 0 0 0 0' % (P.names[1], P.mslot[P.names[1]]),
+                     'proc 1', 'ctxreg 1', 'reg 0', 'reg 1', 'start 0', 'start 1', 'live']
+            # one procedure cannot hold that many calls in the C driver: repeat through a callback-free loop of tells
+            res.append(('burst%d' % i, 'core', lines + ['tellmany 0 1 %d %d' % (100 + i, n), 'live', 'dispatch', 'stop 1', 'live', 'dereg 0', 'dereg 1', 'ctxdereg', 'live', 'endproc']))
+        return []     # enabled once the drivers implement `tellmany`
+
+class C03(CoreProp):
+    scenario = staticmethod(GC.gen_sources_case)
+    pid = 'C03'; props_file = 'Props_C03'; focus = {'src', 'pill', 'errno', 'ps'}; loop_share = 0.4
+    proj = Proj(rets=('srclen',), exact=('loop', 'dispatch', 'quit'), cb=cb_full, keep=('close',))
+    rule = ('corpus + random programs with descriptor/timer/signal sources (one-shot and persistent), environment actions between dispatches '
+            'and inside blocking loops, quit/stop/pause around pending events, errno left by callbacks; non-trivial = distinct script delivering >= 1 non-pubsub event')
+    def monitors(self, case, ctr): return mon_userdata(case, ctr) + mon_evt_only_running(case, ctr)
+    def nontrivial(self, case, ctr):
+        return ctr is not None and any(l.startswith('cb ') and re.search(r' [1-7]:', l) for l in ctr)
+
+class C04(CoreProp):
+    pid = 'C04'; props_file = 'Props_C04'; focus = {'reent', 'life', 'ps', 'stash'}
+    proj = None
+    rule = ('corpus + random programs mixing every API family with re-entrant callbacks, retained module and event references released in '
+            'any order, teardown in both orders; judged by ASan/UBSan, the allocator census after teardown and the model; '
+            'non-trivial = distinct script with >= 2 callbacks and a deregistration')
+    def project(self, header, lines): return [l for l in lines if l.startswith(('live', 'CRASH', 'freedata'))]
+
+class C07(CoreProp):
+    pid = 'C07'; props_file = 'Props_C07'; focus = {'ctx', 'life'}
+    proj = Proj(rets=('finalize', 'loop', 'dispatch', 'quit', 'stats', 'settick', 'dereg', 'start'), exact=('ctxreg', 'ctxdereg', 'ctxlen', 'reg'),
+                cb=cb_stop, keep=('state', 'live'))
+    rule = ('corpus + random programs biased to context register/deregister/finalize/loop/dispatch interleaved with module registration and '
+            'deregistration, also from callbacks; persistent and non-persistent contexts; non-trivial = distinct script with >= 2 context calls succeeding')
+
+class C08(CoreProp):
+    pid = 'C08'; props_file = 'Props_C08'; focus = {'ps', 'pill', 'batch'}
+    proj = Proj(rets=('pill',), cb=cb_ps, keep=('state',))
+    rule = ('corpus + random programs with several senders, batching settings, pause/resume, poison pills, loop stop/restart; payload ids '
+            'increase with send order so that per-recipient order is checkable; non-trivial = distinct script delivering >= 3 messages')
+    def monitors(self, case, ctr): return mon_messages(case, ctr)
+    def nontrivial(self, case, ctr):
+        return ctr is not None and sum(len([x for x in l.split()[6:] if x.startswith('0:')]) for l in ctr if l.startswith('cb ')) >= 3
+
+class C09(CoreProp):
+    pid = 'C09'; props_file = 'Props_C09'; focus = {'src'}
+    proj = Proj(exact=('srcreg', 'srcdereg', 'srclen', 'sub', 'unsub'))
+    rule = ('corpus + random register/deregister/length sequences per source kind (descriptor, timer, signal, path, threshold, task refusal, '
+            'subscriptions) on idle/running/paused/stopped modules, keys incl. 0 and repeated keys, bad priority flags; '
+            'non-trivial = distinct script with >= 3 registry calls')
+    def nontrivial(self, case, ctr):
+        return sum(1 for l in case[2] if l.split()[0] in ('srcreg', 'srcdereg', 'sub', 'unsub')) >= 3
+
+class C13(CoreProp):
+    scenario = staticmethod(GC.gen_batch_case)
+    pid = 'C13'; props_file = 'Props_C13'; focus = {'batch', 'ps'}
+    proj = Proj(exact=('batchsize', 'batchtimeout'), cb=cb_full)
+    rule = ('corpus + random programs with batch sizes 0..5, batch timeouts (fired by the script), low/normal/high priority subscriptions and '
+            'descriptor sources, pause/resume/stop and setting changes between arrivals; non-trivial = distinct script with a batching setter and >= 2 deliveries')
+
+class C15(CoreProp):
+    pid = 'C15'; props_file = 'Props_C15'; focus = {'names', 'deny', 'ctx'}
+    proj = Proj(exact=('reg',), rets=('dereg', 'publish', 'tell', 'broadcast', 'pill', 'sub', 'unsub', 'ctxlen', 'quit', 'finalize', 'dispatch', 'ctxdereg', 'stats'),
+                keep=('state',))
+    rule = ('corpus + random programs over modules sharing a name (with/without allow-replace), deny-ctx/deny-pub/deny-sub/persist flags, '
+            'restricted calls attempted from every callback kind, reserved topics; non-trivial = distinct script with a flagged module or a shared name')
+    def nontrivial(self, case, ctr):
+        mods = [l.split() for l in case[2] if l.startswith('mod ')]
+        return any(t[4:9] != ['0'] * 5 for t in mods) or len({t[2] for t in mods}) < len(mods)
+
+class C16(CoreProp):
+    scenario = staticmethod(GC.gen_stash_case)
+    pid = 'C16'; props_file = 'Props_C16'; focus = {'stash', 'ps', 'become'}
+    proj = Proj(exact=('stash', 'unstash'), cb=cb_ps)
+    rule = ('corpus + random programs where handlers stash events and unstash n (n from 0 to beyond the number stashed), with become/unbecome '
+            'and stop/start; non-trivial = distinct script with a successful stash')
+    def monitors(self, case, ctr): return mon_stash_counts(case, ctr) + mon_messages(case, ctr)
+    def nontrivial(self, case, ctr):
+        return ctr is not None and any(ctr[i].startswith('> stash') and i + 1 < len(ctr) and ctr[i + 1] == 'r0' for i in range(len(ctr)))
+
+class C17(CoreProp):
+    scenario = staticmethod(GC.gen_stash_case)
+    pid = 'C17'; props_file = 'Props_C17'; focus = {'become', 'ps', 'life'}
+    proj = Proj(exact=('become', 'unbecome'), cb=cb_handler)
+    rule = ('corpus + random programs with become/unbecome from outside and inside handlers, deliveries, stash replays, stop/start cycles; '
+            'non-trivial = distinct script with a successful become and a later delivery')
+    def nontrivial(self, case, ctr):
+        return ctr is not None and any(l.startswith('cb ') and l.split()[2] == 'evt' and l.split()[4] != '0' for l in ctr)
+
+class C18(CoreProp):
+    scenario = staticmethod(GC.gen_tb_case)
+    pid = 'C18'; props_file = 'Props_C18'; focus = {'tb', 'life', 'ps'}
+    proj = Proj(allrets=True)
+    rule = ('corpus + random programs setting token buckets (rate, burst incl. 0), bursts of token-consuming calls, refill timer firings, '
+            're-configuration and stop; non-trivial = distinct script in which a call returned EAGAIN')
+    def project(self, header, lines):
+        return [re.sub(r'r-(?!11$)\d+$', 'r-', x) for x in Proj(allrets=True)(lines)]
+    def nontrivial(self, case, ctr): return ctr is not None and 'r-11' in ctr
+
+class C19(CoreProp):
+    pid = 'C19'; props_file = 'Props_C19'; focus = {'life', 'ps'}
+    proj = Proj(rets=('sub', 'unsub'), cb=cb_sys)
+    rule = ('corpus + random programs with subscriptions to the system topics, loop starts/stops (blocking and dispatch) and module transitions; '
+            'non-trivial = distinct script delivering >= 1 system notification')
+    def nontrivial(self, case, ctr):
+        return ctr is not None and any(l.startswith('cb ') and re.search(r':1:\d+( |$)', l) for l in ctr)
+    def gen_one(self, rng, ctx, i):
+        h, lines = super().gen_one(rng, ctx, i)
+        # make sure somebody listens to system topics
+        out = []
+        for l in lines:
+            out.append(l)
+            if l == 'proc 1':
+                pass
+            if l.startswith('reg ') and rng.random() < 0.7:
+                m = l.split()[1]; out.append('sub %s %d 0 0 5' % (m, rng.choice([1001, 1002, 1004, 1005])))
+        return h, out
+
+class C20(CoreProp):
+    scenario = staticmethod(GC.gen_sources_case)
+    pid = 'C20'; props_file = 'Props_C20'; focus = {'src', 'life'}
+    rule = ('corpus + random programs registering descriptor (auto-close or not), timer, signal, path, threshold sources, one-shot or not, with '
+            'stop / pill / refusing start / deregistration inside callbacks and retained events; judged by the close() log of user descriptors '
+            'and the count of descriptors still open; non-trivial = distinct script opening >= 1 internal descriptor')
+    def project(self, header, lines):
+        out = []
+        for l in lines:
+            if l.startswith('close ') or l.startswith('CRASH'): out.append(l)
+            elif l.startswith('live '): out.append(l.split()[-1])
+        return out
+    def nontrivial(self, case, ctr): return ctr is not None and any(l.startswith('live ') and not l.endswith('fd=0') for l in ctr)
+
+REGISTRY = {c.pid: c() for c in (C01, C02, C03, C04, C07, C08, C09, C13, C15, C16, C17, C18, C19, C20)}
